@@ -1,6 +1,7 @@
 (** Executable model of how an identityref decides which identities it accepts:
       meta/core.go    FindIdentity (depth-first search through Identity.derived, first hit wins)
-      node/value.go   toIdentRef (drops a prefix, FindIdentity over Type.Base(), label = Ident())
+      node/value.go   toIdentRef (drops a prefix, FindIdentity over the DerivedDirect() of each identity
+                      of Type.Base() (repair 873d214), label = Ident())
     The JSON and XML writers (nodeutil/json_wtr.go, xml_wtr.go, xml_wtr2.go) call FindIdentity the
     same way.  Identity.derived of an identity is [direct_derived] (Typed/Model.v); the order of that
     list in Go depends on the order identities are compiled in, which is why the check only
@@ -60,13 +61,40 @@ Definition value_local (x : text) : text :=
   | None => x
   end.
 
-(** node.NewValue on an identityref: the label of the value, None = "could not find identity ref" *)
-Definition ident_value (fuel : nat) (mods : list modl) (bases : list iid) (v : text) : option (option text) :=
+(** node.NewValue on an identityref before repair 873d214: FindIdentity over Type.Base() itself, so
+    the name of a base was accepted as a value (kept for the refuted example only) *)
+Definition ident_value_old (fuel : nat) (mods : list modl) (bases : list iid) (v : text) : option (option text) :=
   match find_identity fuel mods bases (value_local v) with
   | Found j => Some (Some (snd j))
   | NotFound => Some None
   | FuelOut => None
   end.
+
+(** toIdentRef after the repair:
+      var ref *meta.Identity
+      for _, base := range bases {
+        if ref = meta.FindIdentity(base.DerivedDirect(), x); ref != nil { break }
+      }
+    the search starts below each base, the base itself is never a candidate *)
+Fixpoint value_loop (fuel : nat) (mods : list modl) (x : text) (bases : list iid) : found :=
+  match bases with
+  | [] => NotFound
+  | b :: tl => match find_identity fuel mods (direct_derived mods b) x with
+               | NotFound => value_loop fuel mods x tl
+               | r => r
+               end
+  end.
+
+(** node.NewValue on an identityref: the label of the value, None = "could not find identity ref" *)
+Definition ident_value (fuel : nat) (mods : list modl) (bases : list iid) (v : text) : option (option text) :=
+  match value_loop fuel mods (value_local v) bases with
+  | Found j => Some (Some (snd j))
+  | NotFound => Some None
+  | FuelOut => None
+  end.
+
+(** the calls start one level below the bases: at most one level per identity *)
+Definition value_fuel (mods : list modl) : nat := ident_fuel mods.
 
 (** everything a call with fuel [S f] looks at: the candidates and what is below them *)
 Definition closure (f : nat) (mods : list modl) (cands : list iid) : list iid :=
